@@ -468,3 +468,63 @@ def as_line(fam, args):
     r, misses = _with_md5(fam, args, run)
     r.update(violated=(r["out"] != r["expected"]), detail="line %r -> %r, expected %r" % (line, r["out"], r["expected"]), misses=misses)
     return r
+
+
+def _reseed_passlib():
+    """passlib draws the sha512-crypt salt from its own RNG: re-seed it so that two runs differ only through their inputs"""
+    try:
+        import passlib.utils
+        passlib.utils.rng.seed(12345)
+    except Exception:
+        pass
+
+
+def secret_run(fam, args):
+    """one secret-bearing input through the real code: mode 'value' (_anonymize_value) or 'line' (replace_matching_item)"""
+    _reseed_passlib()
+    a = args["a"]
+    salt = args.get("salt", "S")
+    try:
+        if args.get("mode") == "value":
+            return fam.sir._anonymize_value(a, {}, fam.words.default_reserved_words, salt)
+        rx = fam.sir.generate_default_sensitive_item_regexes()
+        return fam.sir.replace_matching_item(rx, a, {}, salt, fam.words.default_reserved_words)
+    except Exception as e:
+        return "EXC:%s" % type(e).__name__
+
+
+@register("secret_pair")
+def secret_pair(fam, args):
+    """C07: two inputs that differ only in the content of a secret of the same format class must give identical output"""
+    ra = secret_run(fam, args)
+    if args.get("b") is None:
+        return dict(violated=isinstance(ra, str) and ra.startswith("EXC:"), observed=ra, detail="single run: %r -> %r" % (args["a"], ra))
+    rb = secret_run(fam, dict(args, a=args["b"]))
+    return dict(violated=(ra != rb), observed=[ra, rb], detail="%r -> %r ; %r -> %r" % (args["a"], ra, args["b"], rb))
+
+
+@register("secret_log")
+def secret_log(fam, args):
+    """C07-H5: nothing logged at INFO or above may contain the secret-bearing token"""
+    import logging
+    recs = []
+
+    class H(logging.Handler):
+        def emit(self, r):
+            recs.append((r.levelno, r.getMessage()))
+    root = logging.getLogger()
+    h = H()
+    old = root.manager.disable
+    logging.disable(logging.NOTSET)
+    root.addHandler(h)
+    oldlvl = root.level
+    root.setLevel(logging.DEBUG)
+    try:
+        secret_run(fam, args)
+    finally:
+        root.removeHandler(h)
+        root.setLevel(oldlvl)
+        logging.disable(old)
+    toks = [t for t in args["a"].split() if len(t) >= 3]
+    leaks = [m for lvl, m in recs if lvl >= logging.INFO and any(t in m for t in toks[-1:])]
+    return dict(violated=bool(leaks), observed=leaks[:2], detail="records >= INFO mentioning the last token: %d" % len(leaks))
